@@ -128,6 +128,7 @@ func (p dPoint) text(i int) string {
 			b.WriteString("\t" + line + "\n")
 		}
 		b.WriteString(")\n")
+		fmt.Fprintf(&b, "const K%d_S = iota\n", i)
 		return b.String()
 	case "return":
 		var rs []string
@@ -255,8 +256,13 @@ func dTypes(points []dPoint) ([]dOutcome, error) {
 		if p.Family != "const" || !out[i].Ok {
 			continue
 		}
+		names := []string{}
 		for k := range p.Pt.Specs {
-			c, _ := pkg.Scope().Lookup(fmt.Sprintf("K%d_%d", i, k)).(*types.Const)
+			names = append(names, fmt.Sprintf("K%d_%d", i, k))
+		}
+		names = append(names, fmt.Sprintf("K%d_S", i))
+		for _, nm := range names {
+			c, _ := pkg.Scope().Lookup(nm).(*types.Const)
 			if c == nil {
 				continue
 			}
@@ -419,9 +425,18 @@ func (b *dBuilder) build(w *TWorld, p dPoint) (o dOutcome) {
 		if len(b.errs) > 0 {
 			return dOutcome{Ok: false, Msg: b.errs[0], Types: map[string]string{}}
 		}
+		// a separate single-spec declaration using iota, built after the block
+		pkg.NewConstStart(pkg.Types.Scope(), token.NoPos, nil, fmt.Sprintf("K%d_S", b.n))
+		iota(pkg.CB())
+		pkg.CB().EndInit(1)
 		o.Ok = true
+		cnames := []string{}
 		for k := range p.Pt.Specs {
-			c, _ := pkg.Types.Scope().Lookup(fmt.Sprintf("K%d_%d", b.n, k)).(*types.Const)
+			cnames = append(cnames, fmt.Sprintf("K%d_%d", b.n, k))
+		}
+		cnames = append(cnames, fmt.Sprintf("K%d_S", b.n))
+		for _, cname := range cnames {
+			c, _ := pkg.Types.Scope().Lookup(cname).(*types.Const)
 			if c == nil {
 				o.Consts = append(o.Consts, "missing")
 				continue
